@@ -18,10 +18,12 @@ impl Check for C04 {
             Phase { name: "length-class grid for AAD / payload (and the 16x16 product in thorough)", cases: if q { 32 } else { 32 + 256 }, exhaustive: true },
             Phase { name: "messages decoded from non-canonical wire forms", cases: scale(if q { 64000 } else { 400000 }, b), exhaustive: false },
             Phase { name: "adversarial near-collisions: every split of the same bytes between AAD and payload", cases: scale(if q { 16000 } else { 80000 }, b), exhaustive: false },
+            Phase { name: "birthday: the structure of a built protected header with 2^17 pairwise distinct text labels", cases: 1, exhaustive: true },
         ]
     }
     fn run_case(&self, ctx: &mut Ctx, phase: usize, idx: u64) {
         match phase {
+            4 => birthday_structure_case(ctx, "MAC_structure"),
             0 => {
                 let o = if ctx.rng.coin() { Origin::Built } else { Origin::Wire };
                 let p = gen_prot_variant(ctx, o);
